@@ -48,7 +48,8 @@ CLAIMS = {
             'Coq proof (Gauss-Newton algebra over GNSpec: flat-to-block sums, symmetry of Omega) + exact integer correspondence + lstsq oracle'),
     'C05': ('proof',
             'PARTIAL. Theorem C05 (coq/props/C05.v) proves the part that is logic: the chi2 of an edge along a boxplus perturbation is differentiable '
-            'with derivative built from the error and the CODE Jacobian (generic quad_derive + C01; instance SE(3) odometry), a state is first-order '
+            'with derivative built from the error and the CODE Jacobian (generic quad_derive_curve + C01; instances: SE(3) and SE(2) odometry and landmark edges, '
+            'both vertices), a state is first-order '
             'stationary iff the assembled gradient vanishes, the Gauss-Newton increment is a descent direction (b.dx = -dx^T H dx), a consistent '
             'configuration has chi2 = 0 and zero gradient, the stopping rule never reports convergence on an increase; and it REFUTES that the stopping '
             'rule alone implies final chi2 <= initial chi2. NOT proved (and not provable with what is installed): the quantitative local-convergence claim '
@@ -80,8 +81,10 @@ CLAIMS = {
             'relabelling of ids (negative, sparse, huge) gives the same binding; theta + 2 k pi constructs the same SE(2) pose; splitting an edge into two with '
             'half the information each leaves b, H, chi2 unchanged; scaling all information by c keeps every solution dx and scales chi2; negating a unit '
             'quaternion leaves landmark errors unchanged and maps the odometry error e to S e, so chi2 is unchanged for block-diagonal information -- '
-            'and the unrestricted claim is REFUTED by a witness (known finding, not repaired). NOT proved: invariance under permuting the VERTEX list '
-            '(conjugation of H by a permutation) -- covered by the metamorphic oracle only.',
+            'and the unrestricted claim is REFUTED by a witness (known finding, not repaired). Permuting the VERTEX list: the flat system is the same '
+            'system with rows and columns renumbered (spec_b / spec_H / chi2 equalities through the renumbering phi), solutions correspond, and with distinct '
+            'ids the binding of edges follows the permutation (bind_vperm). Partial because of the refuted quaternion-sign sub-claim and because "the '
+            'optimization result is unchanged" is proved as correspondence of the linear systems and their solutions, not through the float solver.',
             AX + 'hand-written model lib/GraphModel.v (dictionaries in insertion order, slice writes as pointwise block writes) validated on every run by an EXACT integer correspondence against graph.py; spsolve is not modelled (theorems quantify over every increment / every solution of H dx = -b); lil_matrix, dict order and set membership are modelled, not verified.' + TR,
             'Coq proof (sum permutation/linearity lemmas over GNSpec, ring identities on regenerated programs, refutation by witness) + metamorphic oracle'),
     'C09': ('proof',
